@@ -4,7 +4,7 @@
    the set of extension names on the field's options, proto type, label, proto3_optional. *)
 From Coq Require Import String List Bool.
 From J5V.lib Require Import Outcome Corr.
-From J5V.model Require Import CmpbFields.
+From J5V.model Require Import CmpbFields CmpbDecls.
 Import ListNotations.
 Local Open Scope string_scope.
 
@@ -31,7 +31,19 @@ Definition imp_path_with (ref_path : string) (i : imp) : string :=
 Inductive c07case :=
 (* one property in `object Foo { ... }`, nothing else in the file *)
 | CIso (p : prop) (ref_path : string)
-       (v : verdict) (imports : list string) (exts : list string) (pt : string) (repeated opt3 : bool).
+       (v : verdict) (imports : list string) (exts : list string) (pt : string) (repeated opt3 : bool)
+(* one top-level enum alone in a file: imports of the file, extension names on the enum and its values *)
+| CEnum (e : enum_decl) (v : verdict) (imports : list string) (exts : list string)
+(* one service alone in a file: imports of the generated service file, extension names on the service,
+   its methods and the request/response messages (not on their fields) *)
+| CService (sv : service) (v : verdict) (imports : list string) (exts : list string).
+
+Definition decl_check (s : dstate) (v : verdict) (imports exts : list string) : bool :=
+  verdict_eqb (verdict_d s) v &&
+  match v with
+  | VOk => set_eq (map imp_path (d_imps s)) imports && set_eq (map ext_name (d_exts s)) exts
+  | _ => true
+  end.
 
 Definition c07_check (c : c07case) : bool :=
   match c with
@@ -49,4 +61,6 @@ Definition c07_check (c : c07case) : bool :=
       | VOk, None => false
       | _, _ => true
       end
+  | CEnum e v imports exts => decl_check (compile_enum e) v imports exts
+  | CService sv v imports exts => decl_check (compile_service sv) v imports exts
   end.
